@@ -268,6 +268,9 @@ func (c *Ctx) finalize() (fails []Obligation, known []Obligation, stale []Findin
 func (c *Ctx) Finish() int {
 	fails, known, stale := c.finalize()
 	if c.Quiet {
+		for _, o := range fails {
+			fmt.Printf("  %s rule=%s construct=%s at %s: %s\n", strings.ToUpper(o.Status), o.Rule, o.Construct, o.Pos, o.Detail)
+		}
 		if len(fails) > 0 {
 			return 1
 		}
